@@ -73,9 +73,25 @@ def save(a, mode):
     return f.getvalue()
 
 
-def load(text):
+def load(text, how=0):
+    """how: 0 load_p1_cif(file object), 1 Atoms.load(str path), 2 Atoms.load(pathlib path), 3 Atoms.load(file object, 'cif')"""
     from mofun import Atoms
-    return Atoms.load_p1_cif(io.StringIO(text))
+    if how == 0:
+        return Atoms.load_p1_cif(io.StringIO(text))
+    if how == 3:
+        return Atoms.load(io.StringIO(text), filetype="cif")
+    import os
+    import pathlib
+    import shutil
+    import tempfile
+    d = tempfile.mkdtemp(prefix="vmon-c15-")
+    try:
+        p = os.path.join(d, "x.cif")
+        with open(p, "w") as f:
+            f.write(text)
+        return Atoms.load(p if how == 1 else pathlib.Path(p))
+    finally:
+        shutil.rmtree(d, ignore_errors=True)
 
 
 def circ(d):
@@ -203,7 +219,8 @@ def run_case(case, ctx):
         return
     st.count("files_written")
     try:
-        b = load(t1)
+        b = load(t1, how=case["s"] % 4)
+        st.seen("load_form", case["s"] % 4)
     except Exception as e:
         if type(e).__name__ == "PostBroken":
             raise
